@@ -287,8 +287,8 @@ def generate(rng, knobs=None):
         return nv if (nv > 1 and per_variant) else 1
 
     def level_values(x, count, nc, positive):
-        if positive:
-            return rng.uniform(0.5, 2.0, size=(count, nc))
+        if positive:   # smooth positive path: growth rates of the history stay moderate
+            return np.exp(np.cumsum(rng.normal(0.0, 0.03, size=(count, nc)), axis=0)) * rng.uniform(0.7, 1.6, size=(1, nc))
         return rng.normal(0.5, 1.0, size=(count, nc))
 
     for x in b.lhs:
@@ -376,6 +376,7 @@ def generate(rng, knobs=None):
         "prepend_input": bool(rng.random() >= 0.2),
         "shocks_from_data": bool(rng.random() >= 0.12),
         "span_form": "span" if rng.random() < 0.7 else "tuple",
+        "silent": bool(rng.random() < 0.8),
     }
     return {
         "kind": "gen", "mode": b.mode, "spec": spec, "source": source, "start": _start(rng), "T": T,
@@ -454,6 +455,16 @@ def directed():
                     "start": {"freq": "M", "year": 2021, "seg": 11}, "T": 5, "data": data, "plan": plan,
                     "opts": {"prepend_input": True, "shocks_from_data": True, "span_form": "span"},
                     "orders": ["dates_equations", "equations_dates"]})
+    # lagged plan transform in the first period of a model without any lag
+    eqs = [{"lhs": "x", "transform": "none", "identity": False, "rhs": ["*", ["num", 0.5], ["var", "z", 0]]}]
+    out.append({"kind": "directed", "label": "lagless-model/diff-at-first-period", "spec": {"equations": eqs, "parameters": {}, "nv": 1},
+                "source": "!equations\n    " + E.render_equation(eqs[0], sty) + "\n",
+                "start": {"freq": "Q", "year": 2020, "seg": 1}, "T": 4,
+                "data": {"x": {"k0": -1, "values": [[1.0]]}, "z": {"k0": -1, "values": [[1.0], [2.0], [3.0], [4.0], [5.0]]},
+                         "diff_x": {"k0": 0, "values": [[0.1], [0.1]]}, "res_x": {"k0": 0, "values": [[0.02], [0.03], [0.01], [0.04]]}},
+                "plan": [{"dates": [0, 1], "names": "x", "transform": "diff"}],
+                "opts": {"prepend_input": True, "shocks_from_data": True, "span_form": "span"},
+                "orders": ["dates_equations", "equations_dates"]})
     # valid under exactly one order
     eqs = [{"lhs": "a1", "transform": "none", "identity": False,
             "rhs": E.sum_node([(1, ["*", ["num", 0.5], ["var", "a1", -1]]), (1, ["*", ["num", 0.3], ["var", "b1", -1]])])},
